@@ -2217,3 +2217,73 @@ CONTROLS['C14'] += [
       "        if min_version <= version <= max_version:\n            return func\n",
       "        if min_version <= version:\n            return func\n", 'R14.5'),
 ]
+
+# ---- round 8 rules -----------------------------------------------------------
+CONTROLS['C17'] += [
+    M('c17-type-lookup-after-consumer-create', H + 'util.py',
+      "            expect_new=requires_consumer_generation)\n\n"
+      "    # Also return the project, user, and consumer type from the request to use\n",
+      "            expect_new=requires_consumer_generation)\n"
+      "        if requires_consumer_type:\n"
+      "            cons_type_id = get_or_create_consumer_type_id(ctx, consumer_type)\n\n"
+      "    # Also return the project, user, and consumer type from the request to use\n",
+      'R17.8'),
+]
+CONTROLS['C12'] += [
+    M('c12-refusal-after-consumer-create', H + 'util.py',
+      "            expect_new=requires_consumer_generation)\n\n"
+      "    # Also return the project, user, and consumer type from the request to use\n",
+      "            expect_new=requires_consumer_generation)\n"
+      "        if requires_consumer_generation and consumer_generation is not None:\n"
+      "            raise webob.exc.HTTPConflict('consumer generation conflict',\n"
+      "                                         comment=errors.CONCURRENT_UPDATE)\n\n"
+      "    # Also return the project, user, and consumer type from the request to use\n",
+      'R12.10'),
+]
+CONTROLS['C14'] += [
+    M('c14-expect-new-not-the-gate', H + 'util.py',
+      "            expect_new=requires_consumer_generation)\n",
+      "            expect_new=consumer_generation is None)\n", 'R14.11'),
+]
+CONTROLS['C13'] += [
+    M('c13-listing-fast-path', RP,
+      "    resource_providers = _get_all_by_filters_from_db(context, filters)\n    return [\n",
+      "    if filters and list(filters) == ['uuid']:\n"
+      "        return [ResourceProvider.get_by_uuid(context, filters['uuid'])]\n"
+      "    resource_providers = _get_all_by_filters_from_db(context, filters)\n    return [\n",
+      'R13.8'),
+]
+CONTROLS['C03'] += [
+    M('c03-same-subtree-root-shortcut', ACX,
+      "    if len(rp_uuids) == 1:\n        return True\n    # A set of uuids of common ancestors of each rp in question\n",
+      "    if len(rp_uuids) == 1:\n        return True\n"
+      "    if any(parent_uuid_by_rp_uuid[u] is None for u in rp_uuids):\n"
+      "        return True\n"
+      "    # A set of uuids of common ancestors of each rp in question\n",
+      'R3.14'),
+]
+CONTROLS['C19'] += [
+    M('c19-sync-skipped-by-row-count', OT,
+      "    std_traits = set(os_traits.get_traits())\n    sel = sa.select(_TRAIT_TBL.c.name)\n",
+      "    std_traits = set(os_traits.get_traits())\n"
+      "    n_rows = ctx.session.execute(\n"
+      "        sa.select(sa.func.count()).select_from(_TRAIT_TBL)).scalar()\n"
+      "    if n_rows >= len(std_traits):\n        return\n"
+      "    sel = sa.select(_TRAIT_TBL.c.name)\n", 'R19.6'),
+]
+CONTROLS['C01'] += [
+    M('c01-unchanged-entry-skipped', H + 'allocation.py',
+      "        consumer = consumers[consumer_uuid]\n        if allocations:\n",
+      "        consumer = consumers[consumer_uuid]\n"
+      "        if allocations and consumer.generation == 0:\n"
+      "            continue\n"
+      "        if allocations:\n", 'R1.9'),
+]
+CONTROLS['C11'] += [
+    M('c11-delete-after-capacity-check', OA,
+      "    visited_rps = _check_capacity_exceeded(context, allocs)\n",
+      "    visited_rps = _check_capacity_exceeded(context, allocs)\n"
+      "    for consumer_id in consumer_ids:\n"
+      "        _delete_allocations_for_consumer(context, consumer_id)\n",
+      'R11.'),
+]
